@@ -299,6 +299,12 @@ impl<C: ContentAddrStore> UnsealedState<C> {
         // apply the proposer action
         if let Some(action) = action {
             self.apply_proposer_action(action, self.tip_901());
+        } else {
+            // Nobody collects this block's tips. They are not part of a block (header or body), so they cannot
+            // be carried into the next block either: a node that restarts from the block would lose them and
+            // disagree with the others about the next proposer's reward. They join the fee pool instead.
+            self.fee_pool.0 = self.fee_pool.0.saturating_add(self.tips.0);
+            self.tips = 0.into();
         }
         // create the finalized state
         SealedState(self, action)
